@@ -22,7 +22,9 @@ META = {
             'closed absorbing for data calls.  The model is tied to /repo on every run by executing the same scripts on live '
             'endpoints: a transport fault at every recv/send call index of every handshake flavour (SSLv3..TLS1.3 x RSA/DHE/'
             'ECDHE/ECDSA/SRP/anon/resumption/client-auth/tickets, both sides), every placement of alerts relative to data, '
-            'both ignoreAbruptClose/closeSocket settings, async and blocking API.',
+            'both ignoreAbruptClose/closeSocket settings, async and blocking API.  Sessions are objects shared by reference '
+            '(Model/C17_Sessions.v): failures on RESUMED connections (session ID, TLS 1.2 ticket, TLS 1.3 PSK) are followed by a '
+            'SessionCache lookup and a follow-up connection offering the session again.',
     'note': 'Trusted: Coq kernel + vm_compute; the translation of a live run into model events (c17_util.hs_events, from a '
             'reference run of a separately instrumented endpoint); FSock transport semantics (persistent failures; buffered '
             'input stays readable); one-record-per-socket-write (no partial sends in the data scripts); recordSize >= 2.  '
@@ -30,8 +32,8 @@ META = {
             'are full theorems since the fixes 0ab9df1 and 8b57b65 in /repo.',
     'technique': 'Rocq/Coq proof over hand-written state machine + live correspondence (vm_compute) + direct property oracle',
 }
-IMPORTS = ['Model.C17_Lifecycle', 'Model.C17_Check']
-MODEL_TARGETS = ['Model/C17_Lifecycle.vo', 'Model/C17_Check.vo']
+IMPORTS = ['Model.C17_Lifecycle', 'Model.C17_Sessions', 'Model.C17_Check']
+MODEL_TARGETS = ['Model/C17_Lifecycle.vo', 'Model/C17_Sessions.vo', 'Model/C17_Check.vo']
 
 
 # ------------------------------------------------------------------------------------------
@@ -64,6 +66,7 @@ def dec_case(c):
 
 def slim(r):
     return dict(lit=r['lit'], viol=r['viol'], case=r['case'], triggered=r.get('triggered'), n_peer_records=r.get('n_peer_records'),
+                wlit=r.get('wlit'), followup=r.get('followup'),
                 outcome=r.get('outcome'), outs=r.get('outs'), blocked=r.get('blocked'), extra=r.get('extra'))
 
 
@@ -106,7 +109,7 @@ def data_batch(cases):
         try:
             r = U.run_data_case(c)
             s = slim(r)
-            if not r['blocked'] and (c.get('both_apis', True)):
+            if not r['blocked'] and (c.get('both_apis', True)) and not c.get('world'):
                 rb = U.run_data_case(c, blocking=True)
                 s['extra'] = None if (rb['outs'] == r['outs'] and rb['final'] == r['final']) else (r['outs'], rb['outs'])
                 s['blocking_run'] = True
@@ -177,6 +180,42 @@ def gen_data_cases(ctx, quick):
     return cases
 
 
+RESUME_FL = ['ssl3-resume', 'tls10-resume', 'tls11-resume', 'tls12-resume', 'tls12-ticket-resume', 'tls13-ticket-resume']
+
+
+def gen_world_cases(ctx, quick):
+    """failures / alerts / orderly ends on RESUMED connections (session ID, TLS 1.2 ticket, TLS 1.3
+    PSK) with a SessionCache shared with the first connection; afterwards the cache is asked and the
+    session is offered again"""
+    import errno
+    import c17_util as U
+    rng = ctx.rng
+    flags = [(False, True), (True, True), (False, False), (True, False)]
+    core = [[('palert', 2, 80), ('read', None, 1)], [('palert', 2, 40), ('read', None, 1), ('write', b'w')],
+            [('palert', 1, 90), ('read', None, 1)], [('palert', 3, 47), ('read', None, 1)],
+            [('reset', errno.ECONNRESET), ('read', None, 1)], [('eof',), ('read', None, 1)],
+            [('pdata', b'xy'), ('eof',), ('read', None, 5)], [('trunc', b'CCCCCC', 3), ('read', None, 1)],
+            [('pjunk',), ('read', None, 1)], [('palert', 1, 0), ('read', None, 1), ('write', b'w')],
+            [('palert', 2, 0), ('read', None, 1)], [('close',)], [('read', None, 1)],
+            [('sendbreak', 0, errno.EPIPE), ('write', b'abc')], [('sendbreak', 1, errno.ECONNRESET), ('write', b'abc'), ('write', b'd')],
+            [('sendbreak', 0, errno.EPIPE), ('close',)], [('setcsock', False), ('palert', 2, 40), ('close',)],
+            [('setcsock', False), ('eof',), ('close',)], [('pdata', b'ab'), ('read', None, 1), ('palert', 2, 80), ('read', None, 1)],
+            [('setign', True), ('eof',), ('read', None, 1)], [('write', b'q'), ('palert', 2, 20), ('read', 3, 2)]]
+    pool = U.systematic_scripts(quick) + U.send_fault_scripts() + U.close_wait_scripts()
+    cases = []
+    n = 0
+    for fl in RESUME_FL:
+        for side in ('server', 'client'):
+            extra = [pool[(7 * k + n) % len(pool)] for k in range(10 if quick else 80)]
+            extra += [U.random_script(rng) for _ in range(10 if quick else 150)]
+            for sc in core + extra:
+                for (ign, csock) in ([flags[n % 4]] if quick else flags):
+                    cases.append(dict(fl=fl, side=side, ign=ign, csock=csock, recsz=[16384, 16384, 4, 2][n % 4],
+                                      script=sc, seed=rng.randrange(1 << 30), cls='world', world=True, both_apis=False))
+                    n += 1
+    return cases
+
+
 # ------------------------------------------------------------------------------------------
 def run(ctx):
     quick = ctx.tier == 'quick'
@@ -198,17 +237,22 @@ def run(ctx):
     hb = gen_hs_batches(ctx, quick)
     dcases = gen_data_cases(ctx, quick)
     dbatches = [dcases[i::64] for i in range(64)]
-    ctx.log('%d handshake batches, %d data scripts' % (len(hb), len(dcases)))
+    wcases = gen_world_cases(ctx, quick)
+    wbatches = [wcases[i::48] for i in range(48)]
+    ctx.log('%d handshake batches, %d data scripts, %d scripts on resumed connections' % (len(hb), len(dcases), len(wcases)))
     with multiprocessing.Pool(vlib.NPROC) as pool:
         hres_b = pool.map(hs_batch, hb, chunksize=1)
         dres_b = pool.map(data_batch, dbatches, chunksize=1)
+        wres_b = pool.map(data_batch, wbatches, chunksize=1)
     hres = [r for b in hres_b for r in b]
     dres = [r for b in dres_b for r in b]
-    for r in hres + dres:
+    wres = [r for b in wres_b for r in b]
+    for r in hres + dres + wres:
         if 'error' in r:
             tie_broken = 'harness error: ' + r['error']
     hres = [r for r in hres if 'error' not in r]
     dres = [r for r in dres if 'error' not in r]
+    wres = [r for r in wres if 'error' not in r]
     ctx.log('live runs done: %d handshake cases (%d with a fault that fired), %d data scripts'
             % (len(hres), sum(1 for r in hres if r['triggered']), len(dres)))
     # ---- the property on the implementation (needs no Coq)
@@ -236,6 +280,19 @@ def run(ctx):
             if ctx.violation(key, what, {'kind': 'data', 'case': enc(c),
                                          'how': './check C17 --replay <this file>  (c17_util.run_data_case)'}):
                 found = True
+    for r in wres:
+        c = r['case']
+        shape = tuple(op[0] if op[0] != 'palert' else 'alert%d/%d' % (op[1], op[2]) for op in c['script'])
+        fu = r.get('followup') or {}
+        ctx.count('resumed-connection-oracle', 1,
+                  [(c['fl'], c['side'], c['ign'], c['csock'], shape, fu.get('lookup'), fu.get('resumed_id'))],
+                  sample=enc(c) if shape[:1] == ('alert2/80',) else None)
+        for key, what in r['viol']:
+            if ctx.violation(key, what, {'kind': 'data', 'case': enc(c), 'followup': repr(fu),
+                                         'how': './check C17 --replay <this file>  (c17_util.run_data_case with world=True: '
+                                                'first connection, resumed connection running the script, cache lookup, '
+                                                'follow-up connection offering the session again)'}):
+                found = True
     # ---- model and implementation on the same scripts
     if res['model_ok']:
         hl = [r['lit'] for r in hres]
@@ -248,6 +305,26 @@ def run(ctx):
         ctx.count('model-vs-impl:handshake-faults', len(hl), [('agree', len(hl) - len(bad_hs))])
         ctx.count('model-vs-impl:script-wellformed', len(wf), [('ok', len(wf) - len(bad_wf))])
         ctx.count('model-vs-impl:data-scripts', len(dl), [('agree', len(dl) - len(bad_d))])
+        wl = [r['lit'] for r in wres]
+        bad_w1, errs4 = vlib.coq_bad_indices('C17x', IMPORTS, 'DataCase', 'chk_data', wl, shard=max(20, (len(wl) + 15) // 16))
+        ww = [r['wlit'] for r in wres if r.get('wlit')]
+        bad_w2, errs5 = vlib.coq_bad_indices('C17y', IMPORTS, 'WorldCase', 'chk_world', ww, shard=max(20, (len(ww) + 15) // 16))
+        ctx.count('model-vs-impl:resumed-connections', len(wl), [('agree', len(wl) - len(bad_w1))])
+        ctx.count('model-vs-impl:shared-session-worlds', len(ww), [('agree', len(ww) - len(bad_w2))])
+        if len(ww) != len(wl):
+            tie_broken = 'resumed-connection cases without a world literal: %d' % (len(wl) - len(ww))
+        for e in errs4 + errs5:
+            tie_broken = 'case evaluation failed: ' + e[:400]
+        for i in bad_w1[:3]:
+            tie_broken = 'model disagrees with implementation on resumed-connection script %s' % json.dumps(enc(wres[i]['case']))
+        wwr = [r for r in wres if r.get('wlit')]
+        for i in bad_w2[:5]:
+            ctx.log('model/impl disagreement (shared session): %s -> %s' % (wwr[i]['case'], wwr[i].get('followup')))
+            tie_broken = ('shared-session model (session object shared by reference between the cache and every connection of '
+                          'the session) disagrees with implementation on %s: %s'
+                          % (json.dumps(enc(wwr[i]['case'])), wwr[i].get('followup')))
+        ctx.log('resumed connections: %d scripts, disagreements %d (connection) / %d (shared session)'
+                % (len(wl), len(bad_w1), len(bad_w2)))
         for e in errs + errs2 + errs3:
             tie_broken = 'case evaluation failed: ' + e[:400]
         for i in bad_hs[:5]:
@@ -283,6 +360,8 @@ def replay(ctx, path):
         r = json.load(f)
     c = dec_case(r['case'])
     out = U.run_hs_fault_case(c) if r.get('kind') == 'hs' else U.run_data_case(c)
+    if out.get('followup') is not None:
+        print('shared session afterwards:', out['followup'])
     print('case:', c)
     print('outcomes:', out.get('outcome'), out.get('outs'))
     print('model literal:', out['lit'][:3000])
@@ -290,4 +369,7 @@ def replay(ctx, path):
         print('PROPERTY FAILS [%s]: %s' % (key, what))
     rc, txt = vlib.coq_eval('C17replay', IMPORTS, ['%s %s' % ('chk_hs' if r.get('kind') == 'hs' else 'chk_data', out['lit'])])
     print('model agrees with implementation:', txt.strip()[-200:])
+    if out.get('wlit'):
+        rc, txt = vlib.coq_eval('C17replayw', IMPORTS, ['chk_world %s' % out['wlit']])
+        print('shared-session model agrees with implementation:', txt.strip()[-200:])
     return 1 if out['viol'] else 0
